@@ -34,7 +34,7 @@ def main():
         "real erbium-dns, upstream replies whose smallest TTL is 1..3 s (other records up to 2^31): per case (unique name) a first query, "
         "a repeat inside the TTL (no upstream transmission allowed, every TTL = original - whole seconds elapsed within 1 s, never above "
         "the original), near-miss queries right after the first one (other type, DO flipped, CD flipped, class CH: each must reach the "
-        "upstream) and a repeat 1.1 s after the TTL ran out (the upstream must be asked again); distinct = (min TTL, step, outcome)", floor=40)
+        "upstream) and a repeat 1.1 s after the TTL ran out (the upstream must be asked again); upstream replies that name another question must not create an entry for that name; distinct = (min TTL, step, outcome)", floor=40)
     d = base.scratch_dir("c06")
     procs, ups = [], []
     try:
@@ -42,6 +42,13 @@ def main():
         ttls = {}
 
         def script(qn, proto, nth, q):
+            if qn.startswith("alias"):
+                # an upstream whose reply names ANOTHER question (same id): whatever the server makes of it, it must not
+                # turn into a cache entry for that other name
+                victim = "victim" + qn[5:]
+                labels, o = dnslib.dec_name(q, 12)
+                fake_q = q[:12] + dnslib.enc_name(victim) + q[o:o + 4]
+                return [("reply", dnslib.build_reply(fake_q, answers=[(victim, 1, 60, bytes([10, 66, 6, 6]))]), 0)]
             base_name = qn
             m, extra = ttls.get(qn, (2, 300))
             p = dnslib.parse(q)
@@ -149,6 +156,21 @@ def main():
             if after[2] < 1:
                 leg.violation("C06/e2e/served-past-ttl", "%s: min TTL %d s, asked again %.2f s after the first query, upstream saw no new transmission (TTLs %s)" % (
                     name, m, after[1], after[3]), replay)
+        # ---- replies that echo another question
+        for i in range(6 if thorough else 3):
+            alias, victim = "alias%d.c06.test" % i, "victim%d.c06.test" % i
+            ask(alias, edns=1232)
+            ask(alias, edns=1232)
+            before = ntx(victim)
+            rv = ask(victim, edns=1232)
+            leg.eval()
+            reached = ntx(victim) - before
+            leg.cls("echoed-other-question|%s" % ("victim-forwarded" if reached >= 1 else "victim-served-from-cache"))
+            if reached < 1:
+                leg.violation("C06/e2e/entry-returned-for-a-name-never-asked",
+                              "%s was never asked before, yet the upstream saw no query for it (the upstream's reply to %s had named it in its question section); answer %s" % (
+                                  victim, alias, [rd.hex() for (_, _, _, rd) in (rv.answers if rv else [])]),
+                              {"engine": "c06-e2e", "alias": alias, "victim": victim})
         leg.count("cases", len(results))
         if len(results) < ncases // 2:
             leg.inconclusive("only %d of %d cases completed" % (len(results), ncases))
